@@ -15,6 +15,7 @@
 //	remove-serve <scheme> <host> <path|->                            -> <remove output> ; <serve output>   (request issued while RemoveServer is between balancer and record)
 //	serve-serve                                                      -> <serve> ; weights … ; <serve> ; weights …   (second request issued while the first one's adjustment finishes its push)
 //	upsert … meterfail=1                                             -> err meter when the rebalancer has to create a meter (its factory fails)
+//	pupsert <n> <scheme> <host> <path|-> [user=..] [query=..] [w=<int>] -> pupsert ok=<k> negweight=<m> other=<j>   (n goroutines upsert the same URL at once)
 //	race <pairs> <reqs>                                              -> race ok | race nonmember=<n>   (add+remove of a reserved server racing with requests)
 package main
 
@@ -422,6 +423,71 @@ func (s *h) Op(f []string) string {
 			delete(s.meters, key(ru))
 		}
 		return a + " ; " + b
+	case "pupsert":
+		// <n> goroutines add / update the same URL at once.  They are made to queue on the balancer's mutex:
+		// a parked ServerOption (options run inside UpsertServer, under that mutex) holds it via an add of a
+		// reserved server until all of them wait, long enough (> 1 ms) for sync.Mutex to hand the lock over
+		// strictly in arrival order.  Calls are atomic: the outcome must be that of n sequential upserts.
+		if len(f) < 5 || !allKV(f[5:]) {
+			return "bad-op"
+		}
+		n, e := strconv.Atoi(f[1])
+		if e != nil || n < 1 || n > 64 {
+			return "bad-op"
+		}
+		u := mkURL(f[5:], f[2], f[3], f[4])
+		var opts []roundrobin.ServerOption
+		if ws, ok := hx.KV(f[5:], "w"); ok {
+			w, e := strconv.Atoi(ws)
+			if e != nil {
+				return "bad-op"
+			}
+			opts = append(opts, roundrobin.Weight(w))
+		}
+		z := &url.URL{Scheme: "http", Host: "zz-hold", Path: "/"}
+		parked, release := make(chan struct{}), make(chan struct{})
+		holdDone := make(chan struct{})
+		go func() {
+			defer close(holdDone)
+			_ = s.rr.UpsertServer(z, parkingOption(1, func() { close(parked); <-release }))
+			// Keep re-taking the mutex (briefly parked each time) while the first waiter wakes up: it finds the
+			// mutex locked again after having waited > 1 ms and switches it to starvation mode, in which the lock
+			// is handed from waiter to waiter in arrival order and whoever unlocks and locks again goes to the
+			// back of the queue - all n callers are between their steps before any of them continues.
+			for i := 0; i < 20; i++ {
+				_ = s.rr.UpsertServer(z, parkingOption(1, func() { time.Sleep(20 * time.Microsecond) }))
+			}
+		}()
+		<-parked
+		s.creating = key(u)
+		errs := make([]error, n)
+		var wg sync.WaitGroup
+		for i := 0; i < n; i++ {
+			wg.Add(1)
+			go func(i int) {
+				defer wg.Done()
+				errs[i] = s.fr.UpsertServer(mkURL(f[5:], f[2], f[3], f[4]), opts...)
+			}(i)
+		}
+		time.Sleep(3 * time.Millisecond)
+		close(release)
+		<-holdDone
+		wg.Wait()
+		s.creating = ""
+		_ = s.rr.RemoveServer(z)
+		_ = u
+		okc, neg, other := 0, 0, 0
+		for _, e := range errs {
+			switch {
+			case e == nil:
+				okc++
+			case strings.Contains(e.Error(), "Weight should be >= 0"):
+				neg++
+			default:
+				other++
+			}
+		}
+		return fmt.Sprintf("pupsert ok=%d negweight=%d other=%d", okc, neg, other)
 	case "remove-serve":
 		// RemoveServer, and a request issued at the moment the rebalancer has removed the server from the
 		// balancer but has not yet dropped its own record.  Calls are atomic: the outcome must be the
